@@ -85,6 +85,28 @@ func registerSDK(P *Program) {
 			return prefix + hex.EncodeToString(b)
 		}
 	}
+	P.reg(S+"Bech32ifyAddressBytes", func(it *Interp, a []Value) Value {
+		prefix, ok := a[0].(string)
+		if !ok {
+			panic(unsupported("symbolic bech32 prefix"))
+		}
+		b := it.addrBytes(a[1])
+		if len(b) == 0 {
+			return Tuple{"", (*ErrV)(nil)}
+		}
+		return Tuple{bech32Encode(prefix, b), (*ErrV)(nil)}
+	})
+	P.reg(S+"MustBech32ifyAddressBytes", func(it *Interp, a []Value) Value {
+		prefix, ok := a[0].(string)
+		if !ok {
+			panic(unsupported("symbolic bech32 prefix"))
+		}
+		b := it.addrBytes(a[1])
+		if len(b) == 0 {
+			return ""
+		}
+		return bech32Encode(prefix, b)
+	})
 	P.reg("("+sdkPkg+".AccAddress).String", accStr("haqq1"))
 	P.reg("("+sdkPkg+".ValAddress).String", accStr("haqqvaloper1"))
 	fromBech := func(prefix string) Intrinsic {
